@@ -1,6 +1,6 @@
 (* C10: the model of TimingMap.offsets equals piecewise-linear integration (Integrate.time_of), in query order. *)
 From Coq Require Import ZArith QArith Qround Qabs List Bool Lia Lqa.
-From RV Require Import Base.PyNum Timing.Snapper Timing.Snap Timing.TimingMap Timing.Integrate.
+From RV Require Import Base.PyNum Timing.Snapper Timing.Snap Timing.TimingMap Timing.Integrate Timing.Domain.
 Import ListNotations.
 Open Scope Q_scope.
 
@@ -511,9 +511,6 @@ Proof.
 Qed.
 
 (* ------------------------------------------------------------------ boolean forms of the hypotheses (used by the runner) *)
-Definition wfcb (c : bcs) : bool :=
-  Qlt_bool 0 (bs_bpm c) && Qlt_bool 0 (bs_met c)
-  && (Qnum (s_met (bs_snap c)) =? Qnum (bs_met c))%Z && (Qden (s_met (bs_snap c)) =? Qden (bs_met c))%positive.
 Fixpoint incr_pairsb (p0 : pr) (rest : list pr) : bool :=
   match rest with [] => true | p1 :: rest' => snap_lt (p_s p0) (p_s p1) && incr_pairsb p1 rest' end.
 Fixpoint consistentb (p0 : pr) (rest : list pr) : bool :=
